@@ -139,7 +139,7 @@ func checkC02(c *Ctx) {
 	c.Rule = "full key generations for all (n,t), n<=5, under seeded random schedules (answer order per phase, poll splits, lagging nodes), judged by group arithmetic on public values + machine keyrings + prysm; plus the deviating-announcement family: one participant's key announcement rewritten between machine and node (different well-formed polynomial with the same constant term / no polynomial / different key), delivered first, in the middle or last. distinct = distinct (n,t,family,deviant,position) cases"
 	c.Assumptions = []string{"kyber group arithmetic for public-value checks", "prysm/blst as signature judge", "machines' keyrings read with the harness-known password"}
 	cases := ntCases(5)
-	reps := c.Pick(4, 150)
+	reps := c.Pick(10, 150)
 	type job struct {
 		n, t   int
 		rep    int
